@@ -317,7 +317,7 @@ def plan(tier, seed):
     else:
         opsets = [21, 22, 23, 24, 25, 26, 27]
         extra = [13, 15, 17, 19, 20]
-        nsh, budget = 64, 1500
+        nsh, budget = 64, 400
     shards = [{"kind": "catalog", "ids": ids[i::nsh], "opsets": opsets + extra, "budget_s": budget} for i in range(nsh)]
     # the same components lowered inside control-flow bodies, at the low end of the claimed range
     all_ids = res["res"]
